@@ -43,11 +43,11 @@ class C19:
     coq_timeout = 900
     model_targets = ["Pack.vo", "Corr/C19.vo"]
     proof_target = "Props/C19.vo"
-    theorems = ["C19_total", "C19_peers", "C19_failure", "peer_of_spec"]
+    theorems = ["C19_total", "C19_peers", "C19_failure", "peer_of_spec", "C19_faults_never_blocked", "C19_faults_no_deadlock", "C19_pinned_refuted"]
     allowed_axioms = []
-    coq_header = "From Rdest Require Import Base BCodec Metainfo TrackerResp Corr.C19.\nOpen Scope N_scope.\n"
+    coq_header = "From Rdest Require Import Base BCodec Metainfo TrackerResp Manager Tracker Corr.C19.\nOpen Scope N_scope.\n"
     corr_name = "TrackerResp::from_bencode / peers vs TrackerResp.v"
-    classes = {1: "non-utf8-failure-reason"}
+    classes = {1: "non-utf8-failure-reason", 2: "manager-blocked-on-tracker-failure"}
     rule = ("reply grammar (failure reason valid/invalid UTF-8/wrong type, interval 0/negative/huge/wrong type, peers list "
             "with well-formed and malformed entries: wrong id length, negative/huge port, non-UTF-8 ip, non-dict entries, "
             "compact string form) in canonical and non-canonical spellings, leading/trailing values, plus byte mutations. "
@@ -76,9 +76,16 @@ class C19:
                 doc = bgen.mutate(rng, doc)
                 kind = "mutated"
             cases.append(Case("resp %s" % (doc.hex() or "-"), kind, {"doc": doc[:80].decode("latin1")}))
-        return cases
+        return cases + self.faults(rng, tier)
 
     def coq_case(self, c, out):
+        if c.line.startswith("trk"):
+            t = c.line.split()
+            pumps, contacted, cands = [x.strip() for x in out.split("|")]
+            lst = lambda x: "[%s]" % ("" if x == "-" else ";".join(x.split(",")))
+            return "CFaults %s %s %s [%s] %s %s" % (t[1], lst(t[2]), t[3],
+                                                    ";".join("true" if p == "OK" else "false" for p in pumps.split(",")),
+                                                    lst(contacted), lst(cands))
         doc = hexb(c.line.split()[1])
         out = out.strip()
         if out == "ERR":
@@ -92,7 +99,21 @@ class C19:
         return "CResp %s %s" % (coq_bytes(doc), r)
 
     def model_term(self, c):
+        if c.line.startswith("trk"):
+            t = c.line.split()
+            return "(faults_model %s [%s] %s)" % (t[1], "" if t[2] == "-" else ";".join(t[2].split(",")), t[3])
         return "(tracker_resp_of %s)" % coq_bytes(hexb(c.line.split()[1]))
+
+    def faults(self, rng, tier):
+        ns = {"quick": [0, 1, 2, 3, 5, 63, 64, 65, 66, 70], "thorough": list(range(0, 80)) + [200, 500], "search": list(range(0, 70, 3))}.get(tier, [0, 1, 2])
+        out = []
+        for n in ns:
+            k = rng.choice([0, 1, 3, 11, 12, 20])
+            peers = rng.sample(range(1, 200), k)
+            interested = rng.choice([0, 0, 2, 10, 11, 12])
+            c = Case("trk %d %s %d" % (n, ",".join(map(str, peers)) or "-", interested), "faults", {"fails": n, "peers": k, "interested": interested})
+            out.append(c)
+        return out
 
 
 PROP = C19()
